@@ -426,8 +426,8 @@ Print Assumptions C19_model_is_source_get_screen_from_job_output.
 (* validate_job_dir_and_return_meta since the repair, for EVERY list of marker files its glob may match, whatever they hold (a
    file is the JSON document in it, or None when json.load raises ValueError): None without a match; else the first match
    decides - the document if it is a dict with the key n_unobserved_plates, None if the file is unreadable, if the document
-   is no dict, if the key is missing.  The try / except ValueError, the isinstance / `in` test and the returns come from the
-   translation; in a world (tree, torn set) that is: None for a torn marker, else the metadata the tree records *)
+   is no dict, if the key is missing.  The try / except ValueError, the isinstance / `in` test with its short-circuit `or` (the
+   key test is an exception of the model on anything but a dict: never reached) and the returns come from the translation; in a world (tree, torn set) that is: None for a torn marker, else the metadata the tree records *)
 Theorem C19_model_is_source_validate_job_dir_and_return_meta : forall d : marker_dir,
   src_validate_job_dir_and_return_meta d
   = SOk (match d with Some (JDict (Some m)) :: _ => Some (JDict (Some m)) | _ => None end).
